@@ -31,7 +31,8 @@ def build_scenarios(families, tier, wd, seed):
                     for rep in range(reps if (cache == 'off') else max(1, reps // 3)):
                         n += 1
                         scenarios.append(dict(id=f'stress-{n}', family='stress', seed=rnd.randrange(1 << 30),
-                                              cfg=dict(save_threshold=thr, segment_bytes=seg, cache=cache, confirmation=conf, threads=rnd.choice([2, 4])),
+                                              cfg=dict(save_threshold=thr, segment_bytes=seg, cache=cache, confirmation=conf, threads=rnd.choice([2, 4]),
+                                                       cache_indexes=(rep % 3 != 1)),   # every third history reads the index from the file
                                               producers=rnd.choice([2, 3, 4]), pollers=rnd.choice([1, 2, 3]), batches=rnd.choice([6, 10, 16]),
                                               polls=rnd.choice([20, 40]), steps=[1, 2, 3]))
     return scenarios, {'stress': dict(histories=len(scenarios), repetitions_per_config=reps)}
